@@ -351,6 +351,8 @@ class VQueue:
             if not block:
                 raise _rq.Empty
             if not s.block_until(lambda: len(self.queue) > 0, timeout, what=f'get({self.name})'):
+                if self.log:
+                    s.ev('q_get_timeout', self.name, None)
                 raise _rq.Empty
         item = self.queue.popleft()
         if self.log:
@@ -368,12 +370,20 @@ class VQueue:
         return len(self.queue)
 
     def empty(self):
-        S().yield_point('q.empty')
-        return len(self.queue) == 0
+        s = S()
+        s.yield_point('q.empty')
+        r = len(self.queue) == 0
+        if self.log:
+            s.ev('q_isempty', self.name, r)
+        return r
 
     def full(self):
-        S().yield_point('q.full')
-        return self._full()
+        s = S()
+        s.yield_point('q.full')
+        r = self._full()
+        if self.log:
+            s.ev('q_isfull', self.name, r)
+        return r
 
     def close(self):
         pass
